@@ -48,6 +48,14 @@ def run_one(prop, path, name=None):
 
 def main():
     args = sys.argv[1:]
+    if args and args[0] == '--try':
+        # tools/selftest.py --try PROP patch.diff [PROP patch.diff ...]
+        rest = args[1:]
+        for i in range(0, len(rest), 2):
+            r = run_one(rest[i], rest[i + 1], rest[i + 1])
+            print('%-4s %-60s got=%-10s %s' % (r['prop'], r['name'][-60:], r['got'], ','.join(r.get('obligations', []))[:200]), flush=True)
+            if r['got'].startswith('broken'): print(r['detail'])
+        return
     j = 3
     if '-j' in args:
         i = args.index('-j'); j = int(args[i + 1]); del args[i:i + 2]
